@@ -45,7 +45,7 @@ if __name__ == '__main__':
     dirs = []
     for a in args:
         dirs += sorted(os.path.join(a, x) for x in os.listdir(a) if (x.startswith('refactor') or a.rstrip('/').endswith('refactors')) and os.path.exists(os.path.join(a, x, 'patch.diff')))
-    with ThreadPoolExecutor(max_workers=3) as ex:
+    with ThreadPoolExecutor(max_workers=int(os.environ.get("RF_WORKERS", "3"))) as ex:
         for d, what, alarms in ex.map(run, [(d, all_checks) for d in dirs]):
             print(f'{d}: {what}: ' + ('silent' if not alarms else 'ALARM'))
             for a in alarms:
